@@ -312,6 +312,18 @@ Check wf_table_prefix_free :
   forall ht, wf_ht ht = true -> nodup_keys (ht_codes ht) = true -> prefix_free (ht_codes ht) = true.
 Print Assumptions wf_table_prefix_free.
 
+(* hence, for every HuffmanTree (tree and table agree): the decoder on deserialize(serialize(tree)) decodes what the encoder wrote *)
+Theorem tree_serialized_decodes :
+  forall hm ht d b, (forall t, Permutation (hm t) t) -> wf_ht ht = true -> ser_ok (ht_codes ht) = true ->
+  huff_encode ht d = Some b ->
+  exists ht', ht_deserialize hm (ht_serialize (ht_codes ht)) = Some ht' /\ huff_decode ht' b (length d) = Some d.
+Proof. exact tree_serialized_decodes_proof. Qed.
+Check tree_serialized_decodes :
+  forall hm ht d b, (forall t, Permutation (hm t) t) -> wf_ht ht = true -> ser_ok (ht_codes ht) = true ->
+  huff_encode ht d = Some b ->
+  exists ht', ht_deserialize hm (ht_serialize (ht_codes ht)) = Some ht' /\ huff_decode ht' b (length d) = Some d.
+Print Assumptions tree_serialized_decodes.
+
 (* ContextualHuffmanEncoder::deserialize(serialize()) = the same order, context map and code tables (`twin`), with every
    check of deserialize passed *)
 Theorem c_deserialize_serialize :
